@@ -97,6 +97,81 @@ def h_interp(ctx):
         ri += 1
 
 
+def h_inductive(ctx):
+    """One event from an ARBITRARY buffer state of a time-caching adapter.
+
+    State: buffered publications t_0 < .. < t_{m-1} with symbolic values, the previous request p (or
+    none), and a flag 'older entries were discarded'.  Invariant established by the real clearing rule
+    (drop data[0] while data[1].t <= request):  p <= t_{m-1};  if something was discarded then
+    t_0 <= p;  if m > 1 then t_1 > p.  Event: a request r >= p or a publication after t_{m-1} through the
+    real Output.  Checked: the answer is the definition evaluated on the buffer (so nothing that was
+    discarded could have mattered, because r >= p >= t_0), refusals only beyond the newest publication,
+    and the invariant again."""
+    kind = ctx.params["kind"]
+    hlib.reset_finam_state()
+    t0 = ctx.dt("t0")
+    ada, step = _adapter(ctx, kind)
+    out, inp = hlib.linked_pair(fm.Info(time=t0, grid=fm.NoGrid(1), units="m"), adapters=[ada])
+    m = ctx.choice("buffered", ctx.params["max_buffered"]) + 1
+    times, vals = [t0], [[ctx.real("v0")]]
+    for i in range(1, m):
+        times.append(times[-1] + ctx.td(f"g{i}", lo_us=1))
+        vals.append([ctx.real(f"v{i}")])
+    ada.data = [(t, fm.UNITS.Quantity(np.array(v, dtype=object), "m")) for t, v in zip(times, vals)]
+    has_prev = ctx.flag("requested_before")
+    discarded = ctx.flag("discarded") if has_prev else False
+    p = None
+    if has_prev:
+        p = ctx.dt("p")
+        ctx.assume(p <= times[-1])
+        ctx.assume(p >= times[0])
+        if m > 1:
+            ctx.assume(times[1] > p)
+    ctx.cover("state")
+    if ctx.flag("event_is_publication"):
+        t = times[-1] + ctx.td("g_new", lo_us=1)
+        v = [ctx.real("v_new")]
+        out.push_data(np.array(v, dtype=object), t)
+        times.append(t)
+        vals.append(v)
+        ctx.cover("publish")
+        buf = [bt for bt, _ in ada.data]
+        ctx.check(len(buf) == len(times), "publication-not-buffered")
+        for a, b in zip(buf, times):
+            ctx.check(ctx.eq(a, b), "buffer-times")
+        got = list(np.asarray(ada.data[-1][1].magnitude, dtype=object).reshape(-1))
+        ctx.check(ctx.eq(got[0], v[0]), "buffered-value-is-not-the-publication")
+        return
+    r = ctx.dt("r")
+    if p is not None:
+        ctx.assume(r >= p)
+    try:
+        d = inp.pull_data(r)
+        res = "ok"
+    except FinamTimeError:
+        res = "time-error"
+    ctx.cover("req:" + res)
+    if res != "ok":
+        ctx.log("req", res)
+        ctx.check((r > times[-1]) | (r < times[0]), "refused-inside-buffered-range", {"sig": kind})
+        if discarded or has_prev:
+            ctx.check(r > times[-1], "refused-because-of-discarded-entries", {"sig": kind})
+        return
+    got = list(np.asarray(d.magnitude, dtype=object).reshape(-1))
+    ctx.log("req", got)
+    ctx.check((r >= times[0]) & (r <= times[-1]), "extrapolated", {"sig": kind})
+    exp = expected(ctx, kind, step, times, vals, r)
+    if exp is not None:
+        ctx.check(ctx.eq(got[0], exp[0]), "value-differs-from-definition", {"sig": kind + ":inductive"})
+    post = [bt for bt, _ in ada.data]
+    ctx.check(len(post) >= 1, "buffer-empty")
+    ctx.check(post[0] <= r, "inv-discarded-entry-still-needed", {"sig": kind})
+    if len(post) > 1:
+        ctx.check(post[1] > r, "inv-buffer-longer-than-needed", {"sig": kind})
+    for a, b in zip(post, post[1:]):
+        ctx.check(a < b, "inv-times-increasing")
+
+
 EXPLANATION = (
     "Bounded symbolic execution (symx proxies + z3) of the real NextTime/PreviousTime/LinearTime/StepTime adapters "
     "behind a real Output and in front of a real Input (TimeCachingAdapter._source_updated/_get_data/"
@@ -132,6 +207,14 @@ def families(tier):
             params={"kind": kind, "pattern": pat, "gaps": None},
             bounds=f"adapter {kind}; event pattern {pat}; symbolic gaps >= 1 us, symbolic values and requests",
             must_cover=["req:ok", "req:time-error"], query_timeout_ms=20000))
+    for kind in ("next", "prev", "linear", "step"):
+        fams.append(dict(
+            name=f"{kind}:inductive", ref="vf.props.c11:h_inductive",
+            params={"kind": kind, "max_buffered": 3 if q else 4},
+            bounds=f"adapter {kind}; ONE event (request >= previous request, or publication) from an arbitrary buffer "
+                   f"state with 1..{3 if q else 4} entries satisfying the clearing invariant; all times and values symbolic; "
+                   f"no bound on the length of the history",
+            must_cover=["state", "publish", "req:ok", "req:time-error"]))
     if not q:
         for kind in ("linear", "step", "next", "prev"):
             fams.append(dict(
